@@ -54,13 +54,65 @@ func lineEntry(l string) Sx {
 	return L(Sym("l"), l)
 }
 
+// Results of earlier calls are kept and printed AGAIN after later calls: a decoder that hands out
+// shared or cached sub-objects (a template message reused across calls, a scratch slice aliased by a
+// returned message) changes what an earlier caller holds.  When the second print of an earlier result
+// differs from the first, the earlier case is emitted once more with what the caller now sees - the
+// model and the oracle then judge THAT against the lines of the earlier call.
+type c02held struct {
+	ents  []Sx
+	msgs  []*rwp.InboundMessage
+	first string
+}
+
+var c02ring []c02held
+
+func sxStr(v Sx) string {
+	var b strings.Builder
+	sx(&b, v)
+	return b.String()
+}
+
 func emitC02(lines []string) Sx {
 	ents := []Sx{}
 	for _, l := range lines {
 		ents = append(ents, lineEntry(l))
 	}
-	obs := callDec(lines)
+	var msgs []*rwp.InboundMessage
+	var obs Sx
+	func() {
+		defer func() {
+			if r := recover(); r != nil {
+				obs = Sym("panic")
+			}
+		}()
+		msgs = rpl.RawPanelASCIIstringsToInboundMessages(lines)
+		obs = sxMsgs(msgs, payloadProto)
+	}()
 	emit(L(Sym("c02"), ents, obs))
+	for i := range c02ring {
+		h := &c02ring[i]
+		var again Sx
+		func() {
+			defer func() {
+				if r := recover(); r != nil {
+					again = Sym("panic")
+				}
+			}()
+			again = sxMsgs(h.msgs, payloadProto)
+		}()
+		if s := sxStr(again); s != h.first {
+			c02stats["earlier-result-altered"]++
+			emit(L(Sym("c02"), h.ents, again))
+			h.first = s
+		}
+	}
+	if msgs != nil && len(lines) < 50 {
+		c02ring = append(c02ring, c02held{ents, msgs, sxStr(obs)})
+		if len(c02ring) > 4 {
+			c02ring = c02ring[1:]
+		}
+	}
 	return obs
 }
 
